@@ -72,10 +72,6 @@ type c08Gate interface {
 	// Position reports the log position of the write-like operation that was
 	// issued after Mark and has already returned (0 if it did not reach the log).
 	Position(mark uint64) uint64
-	// Jitter switches seeded apply delays on/off (free-running mode).
-	Jitter(seed uint64, on bool)
-	// Reset is called when the clients of a case are about to start.
-	Reset()
 }
 
 // c08Truth is a ground-truth order of effects where the stack has one that
@@ -94,6 +90,10 @@ type c08Stack struct {
 	// Open returns an empty store. Called once per case.
 	Open func(t testing.TB) (c08Backend, func())
 	Gate c08Gate
+	// Reset, if set, is called when the clients of a case are about to start (after the store was populated).
+	Reset func()
+	// Jitter, if set, switches seeded apply delays on/off around a free-running case.
+	Jitter func(seed uint64, on bool)
 	// Truth is consulted after a case has run (nil: none).
 	Truth func(run *c08Run) (*c08Truth, error)
 	// ClassifyStale names the class of a "transaction committed although an
@@ -730,7 +730,8 @@ func c08WriteLike(c *c08Client, a c08Action) bool {
 
 // c08Execute runs the case. Scheduled mode: exactly one call is in progress at
 // any time, except write-like operations that are parked behind a closed gate.
-func c08Execute(cs *c08Case, be c08Backend, gate c08Gate, rng *kit.Rand, free bool) *c08Run {
+func c08Execute(cs *c08Case, be c08Backend, st *c08Stack, rng *kit.Rand, free bool) *c08Run {
+	gate := st.Gate
 	run := &c08Run{Case: cs, LagAtBegin: map[int]int{}}
 	x := &c08Exec{ctx: context.Background(), be: be, done: make(chan int, len(cs.Scripts)+1), abort: make(chan struct{}), start: make(chan struct{})}
 	clients := make([]*c08Client, len(cs.Scripts))
@@ -738,12 +739,12 @@ func c08Execute(cs *c08Case, be c08Backend, gate c08Gate, rng *kit.Rand, free bo
 	for i, sc := range cs.Scripts {
 		clients[i] = &c08Client{sc: sc, goCh: make(chan struct{}, 1)}
 	}
-	if gate != nil {
-		gate.Reset()
+	if st.Reset != nil {
+		st.Reset()
 	}
-	if free && gate != nil {
-		gate.Jitter(rng.Uint64(), true)
-		defer gate.Jitter(0, false)
+	if free && st.Jitter != nil {
+		st.Jitter(rng.Uint64(), true)
+		defer st.Jitter(0, false)
 	}
 	for _, c := range clients {
 		wg.Add(1)
@@ -1632,7 +1633,7 @@ func c08RunCases(t *testing.T, r *kit.Result, st *c08Stack, mode string, n int, 
 				r.Inconc("%s: store not in the initial state: %v %v", id, got, err)
 				return
 			}
-			run := c08Execute(cs, be, st.Gate, rng, mode == "free")
+			run := c08Execute(cs, be, st, rng, mode == "free")
 			t0 := c08LastStamp(run)
 			scan, err := c08ScanStore(ctx, be)
 			if err != nil {
@@ -1678,7 +1679,8 @@ func c08RunStack(t *testing.T, name string, st *c08Stack, sched, free int, extra
 	r := kit.NewResult(t, name, seed, c08Rule)
 	defer r.Write(t)
 	if os.Getenv("VERIF_RACE") != "" {
-		sched = 0
+		// race-detector build: only the free-running cases (several goroutines really inside the code at once)
+		sched, free = 0, free/4
 	}
 	c08RunCases(t, r, st, "sched", sched, seed)
 	c08RunCases(t, r, st, "free", free, seed)
@@ -1707,4 +1709,14 @@ func c08Require(r *kit.Result, sched, free int) {
 	if free > 0 {
 		r.Require("cases_free", int64(free/shards))
 	}
+}
+
+// c08ReplayStub stands in, in this package's test binary, for a C08 test that lives in another package:
+// /verif/check --replay runs every binary of the plan with the name of the one failing test, and a binary
+// that wrote no result would be reported as broken. Outside a replay the stub does nothing.
+func c08ReplayStub(t *testing.T, name string) {
+	if kit.OnlyCase() == "" {
+		t.Skip("lives in another package")
+	}
+	kit.NewResult(t, name, kit.Seed(8), c08Rule).Write(t)
 }
